@@ -590,6 +590,15 @@ def check_node_keys(ctx):
     for mod in (DR, QDR):
         tree = m.trees[mod] if hasattr(m, "trees") else None
         src = ast.parse(open(m.path_of(mod)).read())
+        loops_of = {}
+
+        def index_loops(node, stack):
+            for ch in ast.iter_child_nodes(node):
+                st2 = stack + [ch] if isinstance(ch, (ast.For, ast.comprehension)) else stack
+                if isinstance(ch, ast.Call):
+                    loops_of[id(ch)] = [x for x in stack if isinstance(x, ast.For)]
+                index_loops(ch, st2)
+        index_loops(src, [])
         for c in ast.walk(src):
             if isinstance(c, ast.Call) and ast.unparse(c.func) == "Node" and c.args and isinstance(c.args[0], ast.Constant) and c.args[0].value in want:
                 kind = c.args[0].value
@@ -597,6 +606,13 @@ def check_node_keys(ctx):
                 ok = sorted(kws) == sorted(want[kind]) and len(c.args) == 1
                 # obj and i must refer to the same port: obj=box.dom[i], i=i   or   enumerate pairs
                 kv = {k.arg: k.value for k in c.keywords}
+                if ok and isinstance(kv["obj"], ast.Name) and kind in ("dom", "cod"):
+                    # the object comes from `for i, obj in enumerate(<box>.<side>)`: it is the object of port i of THAT side
+                    lp = next((l for l in loops_of.get(id(c), []) if isinstance(l.target, ast.Tuple) and len(l.target.elts) == 2 and isinstance(l.target.elts[1], ast.Name)
+                               and l.target.elts[1].id == kv["obj"].id and isinstance(l.iter, ast.Call) and ast.unparse(l.iter.func) == "enumerate"), None)
+                    if lp is not None:
+                        side = ast.unparse(lp.iter.args[0]).rsplit(".", 1)[-1]
+                        ok = side == kind and ast.unparse(kv["i"]) == ast.unparse(lp.target.elts[0])
                 if ok and isinstance(kv["obj"], ast.Subscript) and kind in ("dom", "cod"):
                     base = ast.unparse(kv["obj"].value)
                     ok = base.endswith("." + kind) and (ast.unparse(kv["obj"].slice) == ast.unparse(kv["i"]) or base.count(".") >= 1 and ast.unparse(kv["obj"].slice) == "0")
@@ -734,6 +750,24 @@ def check_bubbles(ctx, top):
         ctx.ob("R20.9", "%s.Diagram.open_bubbles:%s" % (MON, attr), ok, found="%s.%s set when %s" % (got[0], attr, ast.unparse(got[1])) if got else None,
                required="%s.%s only when len(%s) of the bubble and of its inside agree (the straight wires dom_i -> cod_i+1 / dom_i+1 -> cod_i of add_box need equally many ports)" % (owner, attr, side),
                mod=MON, node=br, sig="bubble-flag-" + attr)
+    # what is drawn is the downgraded diagram: downgrading keeps types, boxes and offsets (a bubble keeps its declared dom and cod)
+    MONQ = "discopy.monoidal"
+    bd = m.func(MONQ + ".Bubble.downgrade")
+    res = next((c for c in ast.walk(bd) if isinstance(c, ast.Call) and m.resolve_class(MONQ, ast.unparse(c.func)) is m.cls(MONQ + ".Bubble")), None)
+    ctx.need(res is not None, "Bubble.downgrade does not build a monoidal Bubble")
+    kwd = {k.arg: k.value for k in res.keywords}
+    args = list(res.args)
+    inside = args[0] if args else kwd.get("inside")
+    dom_a = args[1] if len(args) > 1 else kwd.get("dom")
+    cod_a = args[2] if len(args) > 2 else kwd.get("cod")
+    okb = inside is not None and ast.unparse(inside) == "self.inside.downgrade()" and dom_a is not None and cod_a is not None and \
+        ast.unparse(dom_a) in ("Ty(*self.dom)", "self.dom.downgrade()") and ast.unparse(cod_a) in ("Ty(*self.cod)", "self.cod.downgrade()")
+    ctx.ob("R20.9", MONQ + ".Bubble.downgrade", okb, found=ast.unparse(res), required="Bubble(self.inside.downgrade(), Ty(*self.dom), Ty(*self.cod)): the downgraded bubble keeps the declared domain and codomain "
+           "(they may differ from those of the inside)", mod=MONQ, node=bd, sig="bubble-downgrade")
+    dd = m.func(MONQ + ".Diagram.downgrade")
+    rdd = next((s.value for s in dd.body if isinstance(s, ast.Return)), None)
+    shape.match(ctx, "R20.9", MONQ + ".Diagram.downgrade", rdd, "Diagram(Ty(*self.dom), Ty(*self.cod), [box.downgrade() for box in self.boxes], self.offsets)", {}, body=dd.body, mod=MONQ, node=dd,
+                sig="diagram-downgrade", required="same types, boxes (downgraded) and offsets")
     ret = next((s for s in br.body if isinstance(s, ast.Return)), None)
     ctx.need(ret is not None, "open_bubbles: the bubble branch returns nothing")
     shape.match(ctx, "R20.9", MON + ".Diagram.open_bubbles:composite", ret.value, "open_bubble >> Id(left) @ self(diagram.inside) @ Id(right) >> close_bubble", nm, mod=MON, node=ret, sig="bubble-composite",
@@ -741,8 +775,8 @@ def check_bubbles(ctx, top):
     # the straight edges in add_box
     ab = inner(ctx, top, "add_box")
     boxv, depthv = ab.args.args[1].arg, ab.args.args[3].arg
-    for flag, it, src, tgt in (("bubble_opening", "dom", "Node('dom', obj=obj, i=i, depth=depth)", "Node('cod', obj=obj, i=i + 1, depth=depth)"),
-                               ("bubble_closing", "cod", "Node('dom', obj=obj, i=i + 1, depth=depth)", "Node('cod', obj=obj, i=i, depth=depth)")):
+    for flag, it, src, tgt in (("bubble_opening", "dom", "Node('dom', obj=obj, i=i, depth=depth)", "Node('cod', obj=box.cod[i + 1], i=i + 1, depth=depth)"),
+                               ("bubble_closing", "cod", "Node('dom', obj=box.dom[i + 1], i=i + 1, depth=depth)", "Node('cod', obj=obj, i=i, depth=depth)")):
         blk = next((s for s in ab.body if isinstance(s, ast.If) and ast.unparse(s.test) == flag), None)
         ctx.need(blk is not None and len(blk.body) == 1 and isinstance(blk.body[0], ast.For), "add_box has no edge loop for %s" % flag)
         lp = blk.body[0]
@@ -775,7 +809,7 @@ def check(ctx):
     check_diagramize(ctx)
     ctx.rule("R20.9", "bubbles: opening / closing boxes typed against the inside, straight-wire flags only when the lengths on that side agree, index-shifted edges in add_box")
     check_bubbles(ctx, top)
-    ctx.floor("R20.9", 7)
+    ctx.floor("R20.9", 9)
     ctx.floor("R20.1", 5)
     ctx.floor("R20.2", 7)
     ctx.floor("R20.3", 12)
